@@ -217,7 +217,8 @@ class ModelCacheMixin:
     def split(self):
         results = super().split()
         for r in results:
-            r._models = {m.filter(r.variables) for m in self._models}
+            # keep the model a part may have derived by itself (x == c): the part has marked x as exhausted with it
+            r._models.update(m.filter(r.variables) for m in self._models)
         return results
 
     def combine(self, others):
